@@ -260,6 +260,10 @@ func c15RunTcpRow(w *c15World, rep *c15Report, row c15TcpRow, rng *rand.Rand, sp
 			ownAddr = u.Addr
 		}
 		input := c15Quote(u.bytes(), 300)
+		twin := row.St == "identified" && ui%2 == 1
+		if twin {
+			input = "[identified with the bystander's broadcast_address and ports] " + input
+		}
 		c, err := c15Dial(w.d.tcp)
 		if err != nil {
 			return fmt.Errorf("dial: %v", err)
@@ -271,7 +275,13 @@ func c15RunTcpRow(w *c15World, rep *c15Report, row c15TcpRow, rng *rand.Rand, sp
 		case "v1":
 			c.send([]byte("  V1"))
 		case "identified":
-			c.send(append([]byte("  V1"), c15IdentifyBytes(c15PeerBody(ownAddr, 4150, 4151, "1.3.0-c15h"))...))
+			idBody := c15PeerBody(ownAddr, 4150, 4151, "1.3.0-c15h")
+			if twin {
+				// the hostile connection claims to be the bystander: same broadcast address and ports (what it says about
+				// itself is its own business; whose registrations it can touch is not)
+				idBody = c15PeerBody(c15ByAddr, c15ByTCPPort, c15ByHTTPPort, "1.3.0-c15twin")
+			}
+			c.send(append([]byte("  V1"), c15IdentifyBytes(idBody)...))
 			c.send([]byte("REGISTER " + ownT + " " + ownC + "\n"))
 			b1, s1 := c.readFrame(c15Deadline)
 			b2, s2 := c.readFrame(c15Deadline)
@@ -292,7 +302,7 @@ func c15RunTcpRow(w *c15World, rep *c15Report, row c15TcpRow, rng *rand.Rand, sp
 		// ---- compare with the row
 		c15JudgeTcp(rep, w, row, u, input, obs)
 		// ---- the hostile connection's own registrations (GET /debug)
-		if w.d.alive() && (row.St == "identified" || row.Eff == "identify") && obs.End != "timeout" {
+		if w.d.alive() && (row.St == "identified" || row.Eff == "identify") && obs.End != "timeout" && !twin {
 			want := map[string]bool{}
 			if !obs.closed() {
 				for k := range own {
@@ -329,6 +339,16 @@ func c15RunTcpRow(w *c15World, rep *c15Report, row c15TcpRow, rng *rand.Rand, sp
 					f.Level, f.Kind, f.Key = "violation", "malformed-had-effect", "malformed-had-effect:"+row.class()
 				}
 				rep.add(f)
+			}
+		}
+		if twin && !obs.closed() {
+			// end it the orderly way and wait for the daemon's side to finish (it closes after its cleanup), so that
+			// the bystander is looked at after whatever the cleanup did
+			c.closeWrite()
+			for k := 0; k < 20; k++ {
+				if _, st := c.readFrame(100 * time.Millisecond); st != "frame" && st != "timeout" {
+					break
+				}
 			}
 		}
 		c.close()
